@@ -943,9 +943,7 @@ End Toy.
 
 (* ---------------- t_range over binary64: the fit with the real closest_t ---------------- *)
 From AG Require Recon.Helix_proofs.
-(* track_fitting.rs:112-119: the helix built from best_params *)
-Definition helix_of_params (l : list PrimFloat.float) : helix :=
-  let g i := nth i l PrimFloat.zero in mk_helix (g 0) (g 1) (g 2) (g 3) (g 4) (g 5).
+(* helix_of_params (track_fitting.rs:112-119: the helix built from best_params) is defined in Recon/Fit.v *)
 
 Theorem fit_t_range_binary64_lemma :
   forall (L : libm) (tol : PrimFloat.float) (iters : nat),
@@ -1084,6 +1082,47 @@ Proof.
   - intros a b p Ha Hb Hp. unfold dev. apply dev_prim_num; apply Hr; assumption.
 Qed.
 
+
+(* the evaluated-vector form for the binary64 instance (the one the differential tag fit3 runs): (N1), (N2) discharged *)
+Theorem fit_skeleton_total_evaluated_binary64_lemma :
+  forall (L : libm) guess6 bump point_val closest (tree : list (list PrimFloat.float) -> strategy PrimFloat.float)
+    (good : PrimFloat.float -> Prop) sd_tol_ok (pts : list spoint),
+  (forall p, In p pts -> Rabs_le1 (sp_r p)) ->
+  (forall s, fit_simplex PrimFloat.float spoint sp_r (sp_x L) (sp_y L) PrimFloat.ltb PrimFloat.eqb fcmp_prim
+               PrimFloat.add PrimFloat.sub PrimFloat.mul (fun x => x / 2) PrimFloat.abs guess6 bump pts = Ok s ->
+     forall p, In p (asked (cost PrimFloat.float spoint PrimFloat.is_nan PrimFloat.add 0 point_val pts) (tree s)) ->
+     exists y, cost PrimFloat.float spoint PrimFloat.is_nan PrimFloat.add 0 point_val pts p = Ok y /\ good y) ->
+  (forall s, fit_simplex PrimFloat.float spoint sp_r (sp_x L) (sp_y L) PrimFloat.ltb PrimFloat.eqb fcmp_prim
+               PrimFloat.add PrimFloat.sub PrimFloat.mul (fun x => x / 2) PrimFloat.abs guess6 bump pts = Ok s ->
+     wf_strategy good 6 [] (tree s)) ->
+  sd_tol_ok = true -> (3 <= length pts)%nat ->
+  let fit := fit_cluster_to_helix PrimFloat.float spoint sp_r (sp_x L) (sp_y L) PrimFloat.ltb PrimFloat.eqb fcmp_prim
+               PrimFloat.is_nan PrimFloat.add PrimFloat.sub PrimFloat.mul (fun x => x / 2) PrimFloat.abs 0
+               guess6 bump point_val closest (fun c s => run_strategy c (tree s)) sd_tol_ok in
+  fit pts <> Panic /\ (forall k, fit pts = Err k -> k = E_noinit).
+Proof.
+  intros L guess6 bump point_val closest tree good sd pts Hr H3 H4 H6 H7.
+  apply fit_skeleton_total_evaluated_lemma with (good := good); try assumption.
+  - apply fcmp_prim_total.
+  - intros a b p Ha Hb Hp. unfold dev. apply dev_prim_num; apply Hr; assumption.
+Qed.
+
+(* t_range over binary64, minimal form: only the range contract of atan2 (C16_closest_t_range_partial) *)
+Theorem fit_t_range_binary64_min_lemma :
+  forall (L : libm) (tol : PrimFloat.float) (iters : nat),
+  (forall y x, Helix_proofs.rn (latan2 L y x)) ->
+  forall (flt feq : PrimFloat.float -> PrimFloat.float -> bool) fcmp fnan fadd fsub fmul fhalf fabs fzero
+    guess6 bump point_val nm sd_tol_ok (pts : list spoint) tr,
+  fit_cluster_to_helix PrimFloat.float spoint sp_r (sp_x L) (sp_y L) flt feq fcmp fnan fadd fsub fmul fhalf fabs fzero
+    guess6 bump point_val (fun hp q => closest_t L (helix_of_params hp) q tol iters) nm sd_tol_ok pts = Ok tr ->
+  Helix_proofs.rn (tr_t_inner PrimFloat.float tr) /\ Helix_proofs.rn (tr_t_outer PrimFloat.float tr).
+Proof.
+  intros L tol iters Hat flt feq fcmp fnan fadd fsub fmul fhalf fabs fzero guess6 bump point_val nm sd pts tr Htr.
+  eapply (fit_t_range_min_lemma PrimFloat.float spoint sp_r (sp_x L) (sp_y L) flt feq fcmp fnan fadd fsub fmul fhalf fabs
+            fzero guess6 bump point_val _ nm sd pts Helix_proofs.rn); [ | exact Htr].
+  intros hp q. apply Helix_proofs.closest_t_range_lemma. exact Hat.
+Qed.
+
 (* ---------------- the open finding `tinyphi`: the witness is in the class, and on the binary64 model
    (coq/Recon/Helix.v) the value of closest_t for the fit's initial guess is NaN: hypothesis (N3) fails there ------ *)
 Lemma tinyphi_witness_in_class : tinyphi_class tinyphi_libm tinyphi_witness = true.
@@ -1095,3 +1134,87 @@ Lemma tinyphi_witness_nan :
   | [] => False
   end.
 Proof. vm_compute. split; reflexivity. Qed.
+
+(* ---------------- the hypotheses (N1), (N2), (N3e), (N4e) are satisfiable by a binary64 instance with the REAL cost
+   kernel (Fit.B64: closest_t / Helix::at of coq/Recon/Helix.v over a software libm, the simplex prober mini_nm) -------- *)
+Module B64_proofs.
+  Import B64.
+  Section MiniNMwf.
+    Variable F : Type.
+    Variables (fltb : F -> F -> bool) (fadd fsub : F -> F -> F).
+    Variable good : F -> Prop.
+    Variable n : nat.
+    Notation lenp := (fun e : list F * F => length (fst e) = n).
+
+    Lemma pick_in : forall better l cur, In (pick F better cur l) (cur :: l).
+    Proof.
+      intros better. induction l as [ | x t IH]; intros cur; cbn [pick]; [now left | ].
+      destruct (IH (if better (snd x) (snd cur) then x else cur)) as [E | H].
+      - rewrite <- E. destruct (better (snd x) (snd cur)); [right; now left | now left].
+      - right; now right.
+    Qed.
+    Lemma map2_length : forall f (a b : list F), length a = n -> length b = n -> length (map2 F f a b) = n.
+    Proof.
+      intros f a. revert n. induction a as [ | x a IH]; intros m b La Lb; destruct b as [ | y b]; cbn in *; try lia.
+      destruct m; [lia | ]. f_equal. apply IH; lia.
+    Qed.
+    Lemma ask_all_wf : forall k,
+      (forall acc, acc <> [] -> Forall lenp acc -> wf_strategy good n (map fst acc) (k acc)) ->
+      forall vs acc, (vs <> [] \/ acc <> []) -> Forall (fun v => length v = n) vs -> Forall lenp acc ->
+      wf_strategy good n (map fst acc) (ask_all F vs acc k).
+    Proof.
+      intros k Hk. induction vs as [ | v t IH]; intros acc Hne Fv Fa; cbn [ask_all].
+      - apply Hk; [destruct Hne as [H | H]; [now destruct H | exact H] | exact Fa].
+      - inversion Fv as [ | v' t' Lv Ft]. apply wf_ask; [exact Lv | ]. intros y _.
+        apply (IH ((v, y) :: acc)); [right; discriminate | exact Ft | constructor; [exact Lv | exact Fa]].
+    Qed.
+    Lemma mini_nm_wf : forall s, s <> [] -> Forall (fun v => length v = n) s ->
+      wf_strategy good n [] (mini_nm F fltb fadd fsub s).
+    Proof.
+      intros s Ns Fs. unfold mini_nm. apply (ask_all_wf _) with (acc := []); [ | now left | exact Fs | constructor].
+      intros acc Na Fa. destruct acc as [ | e t]; [now destruct Na | ].
+      assert (Hin : forall better, lenp (pick F better e t)).
+      { intros better. rewrite Forall_forall in Fa. apply Fa. apply pick_in. }
+      apply wf_ask; [apply map2_length; apply Hin | ].
+      intros y _. apply wf_done.
+      destruct (pick_in fltb (e :: t) (map2 F (fun bi wi => fadd bi (fsub bi wi))
+                   (fst (pick F fltb e t)) (fst (pick F (fun x y => fltb y x) e t)), y)) as [E | H].
+      - rewrite <- E. now left.
+      - right. apply in_map. exact H.
+    Qed.
+  End MiniNMwf.
+
+  Definition good (y : PrimFloat.float) : Prop := PrimFloat.is_nan y = false.
+
+  Lemma simplex_eq : forall s,
+    fit_simplex PrimFloat.float spoint sp_r (sp_x soft_libm) (sp_y soft_libm) PrimFloat.ltb PrimFloat.eqb fcmp_prim
+      PrimFloat.add PrimFloat.sub PrimFloat.mul (fun x => PrimFloat.div x 2%float) PrimFloat.abs guess6 bump pts = Ok s ->
+    s = the_simplex.
+  Proof. intros s H. unfold the_simplex. rewrite H. reflexivity. Qed.
+
+  (* (N3e) for this instance, computed: the cost function returns a number that is not NaN on each of the eight vectors
+     the optimiser asks *)
+  Lemma evaluated_ok :
+    forallb (fun p => match the_cost p with Ok y => negb (PrimFloat.is_nan y) | _ => false end)
+            (asked the_cost (tree the_simplex)) = true
+    /\ length (asked the_cost (tree the_simplex)) = 8%nat.
+  Proof. vm_compute. split; reflexivity. Qed.
+
+  Theorem fit_total : fit pts <> Panic /\ (forall k, fit pts = Err k -> k = E_noinit).
+  Proof.
+    unfold fit. apply fit_skeleton_total_evaluated_lemma with (good := good).
+    - apply fcmp_prim_total.
+    - intros a b p Ha Hb Hp. cbn [pts In] in Ha, Hb, Hp.
+      destruct Ha as [<- | [<- | [<- | []]]]; destruct Hb as [<- | [<- | [<- | []]]]; destruct Hp as [<- | [<- | [<- | []]]];
+        vm_compute; reflexivity.
+    - intros s Hs p Hp. rewrite (simplex_eq s Hs) in Hp.
+      destruct evaluated_ok as [Hall _]. rewrite forallb_forall in Hall. specialize (Hall p Hp).
+      fold the_cost. destruct (the_cost p) as [y | | ]; try discriminate.
+      exists y. split; [reflexivity | ]. unfold good. destruct (PrimFloat.is_nan y); [discriminate | reflexivity].
+    - intros s Hs. rewrite (simplex_eq s Hs). apply mini_nm_wf.
+      + vm_compute. discriminate.
+      + vm_compute. repeat constructor.
+    - reflexivity.
+    - cbn. lia.
+  Qed.
+End B64_proofs.
